@@ -388,6 +388,14 @@ def generate_fresh(reqs, jobs=14):
     return scen.parallel(reqs, one, jobs=jobs)
 
 
+def unreserve(param: str, constants) -> str:
+    """ExtractOperations may rename an argument that is named like one of its constants (FIND_GQL -> FIND_GQL_,
+    fixes/C15-extract-constant-shadowed.diff); positional behaviour is unchanged, so signatures and hints are
+    compared modulo that renaming."""
+    base = param.rstrip("_")
+    return base if param != base and base in constants else param
+
+
 def replay_of(case, cfg, **kw):
     sc = case.sc
     r = {"seed": sc.seed, "features": list(sc.features), "plugins": [PLUGINS[c] for c in cfg], "configuration": cfg,
@@ -510,7 +518,8 @@ def compare(case, cfg, ops, plans, base_run, res, ev, first):
         if got is None:
             ev.append(("violation", f"method {m} missing with {cfg!r}", replay_of(case, cfg, method=m), True))
             continue
-        if [(p[0], p[2], p[3]) for p in got["params"]] != [(p[0], p[2], p[3]) for p in sig["params"]] \
+        gotp = [(unreserve(p[0], consts if "E" in cfg else ()), p[2], p[3]) for p in got["params"]]
+        if gotp != [(p[0], p[2], p[3]) for p in sig["params"]] \
                 or got["async"] != sig["async"] or got["asyncgen"] != sig["asyncgen"]:
             ev.append(("violation", f"signature of {m} differs with {cfg!r}", replay_of(case, cfg, method=m, got=got, want=sig), True))
     # ExtractOperations constants
@@ -609,7 +618,8 @@ def compare(case, cfg, ops, plans, base_run, res, ev, first):
                 ev.append(("violation", f"{name}: annotations of the plugged method ({cfg!r}) do not resolve: {ph['exc']}",
                            replay_of(case, cfg, operation=name, exc=ph["exc"]), True))
             elif "exc" not in bh:
-                if ph["params"] != bh["params"]:
+                php = {unreserve(k, consts if "E" in cfg else ()): v for k, v in ph["params"].items()}
+                if php != bh["params"]:
                     ev.append(("violation", f"{name}: parameter annotations change meaning with {cfg!r}",
                                replay_of(case, cfg, operation=name, unplugged=bh["params"], plugged=ph["params"]), True))
                 want = bh["return"]
